@@ -51,9 +51,9 @@ CLAIMS = {
          "Decides the partition mechanism for every input: every pairing marks both sides, rename pairings only between unused functions, leftovers only from unmarked functions, zipper maps written in lockstep by one function and only for unmapped instructions, summary counters are len() of the lists whose entries carry that status, Added/Removed operation lists are exactly the unmapped (non-virtualised) instructions.",
          "Uniqueness of short names and maximality of the matching are not decided.",
          "DESIGN.md §4 C09"),
- "C19": ("must-pass-through for candidate creation (similarity >= threshold) and for the 'renamed' status (exactly the not-by-name edge), shared one-to-one rules of C09, forbidden-read census (names, positions, Signature.String) and self-reference replacement check on the similarity's inputs; swap-invariance proof of the similarity by structural induction over the SSA value graph (mirrored fields, commutative operators, min/max selectors, |x| of a mirrored difference, recursively proved helpers; MapSimilarity's symmetry is a listed assumption); interval evaluation showing the similarity is a weighted mean in [0,1]; exhaustive-candidate-search rule (no early exit from the candidate loops)",
+ "C19": ("must-pass-through for candidate creation (similarity >= threshold) and for the 'renamed' status (exactly the not-by-name edge), shared one-to-one rules of C09, forbidden-read census (names, positions, Signature.String) and self-reference replacement check on the similarity's inputs; swap-invariance proof of the similarity by structural induction over the SSA value graph (mirrored fields, commutative operators, min/max selectors, |x| of a mirrored difference, recursively proved helpers; MapSimilarity proved as a two-pass sum over the union of keys, assuming non-negative counts); interval evaluation showing the similarity is a weighted mean in [0,1]; exhaustive-candidate-search rule (no early exit from the candidate loops)",
          "Decides the structural half of rename recognition: candidates only at or above the threshold, computed by the structural similarity; pairings one-to-one; 'renamed' stored exactly for pairs not matched by name; the topology that feeds the similarity reads no name of the analysed function (callee names only, self-calls replaced by a name-free token). Symmetry, range and the value 1 of the similarity, and the optimality of greedy pairing are numeric/runtime properties and are listed as not decided.",
-         "Symmetry and range of MapSimilarity / typeListSimilarity themselves rest on arithmetic facts (max(c,0)=c for counts, matches <= min length) and are stated assumptions of C19.SYM / C19.RANGE, not decided.",
+         "The range [0,1] of MapSimilarity / typeListSimilarity themselves (numerator bounded by denominator) and the non-negativity of frequency counts are stated assumptions of C19.RANGE / C19.SYM, not decided.",
          "DESIGN.md §4 C19"),
  "C12": ("must-pass-through over the induction-variable classifier and the trip-count derivation (incl. the check-every-predecessor loop form and threading of boolean flags), operator-set extraction; exact-constant rule for the SSA-constant converter; ownership/aliasing rule for the symbolic evaluator (only freshly allocated big.Ints are written, no node hands out its own constant); operator-follows-polarity, step-sign and inclusive dead-shortcut rules for the trip count",
          "Decides the gating of loop summaries for every loop shape: an induction variable is recorded only for integer updates whose every in-loop phi edge is the recognised update, with one start value, an invariant step, ADD/SUB only as basic (SUB negated, phi on the left), and only basic IVs become {start,+,step} in the IR; a computed trip count is stored only for single-exit, top-tested loops whose true edge stays in the loop and whose limit is invariant. The arithmetic of the formulas and wrap-around are runtime matters and not decided.",
